@@ -76,3 +76,82 @@ Theorem C02_old_choice_tables_were_not_canonical :
   exists alts i, c_index alts i <> canonical_index alts i.
 Proof. exact old_choice_tables_were_not_canonical. Qed.
 Print Assumptions C02_old_choice_tables_were_not_canonical.
+
+(* ===================================================================== *)
+(* Extensibility layer (coq/Rt/Ext.v, ExtFormat.v; notes/design/EXT.md): the wire format of the framing of
+   extension additions, against the wording of X.696 16.4 and X.691 11.2, 11.6, 11.9. *)
+From A1 Require Import Rt.UperBits Rt.Ext Rt.ExtFormat Rt.ExtProofs.
+
+(* -- X.696 16.4: presence bitmap = length octet, unused-bits octet (8 - n mod 8) mod 8, the bits zero padded -- *)
+Theorem C02_ext_unused_bits_range : forall n, 0 <= unused_bits n <= 7.
+Proof. exact unused_bits_range. Qed.
+Print Assumptions C02_ext_unused_bits_range.
+
+Theorem C02_ext_unused_bits_fill : forall n, 0 <= n -> (n + unused_bits n) mod 8 = 0.
+Proof. exact unused_bits_fill. Qed.
+Print Assumptions C02_ext_unused_bits_fill.
+
+Theorem C02_ext_oer_bitmap_format : forall pres bm, oer_ext_bitmap pres = Some bm ->
+  exists body, bm = (1 + (zlen pres + 7) / 8) :: unused_bits (zlen pres) :: body /\
+    zlen body = (zlen pres + 7) / 8 /\
+    bytes_bits body = pres ++ repeat false (Z.to_nat (unused_bits (zlen pres))).
+Proof. exact oer_ext_bitmap_format. Qed.
+Print Assumptions C02_ext_oer_bitmap_format.
+
+(* -- X.691 11.2 / 11.9.3.5-8: the open type is the contents cut into fragments, each behind its length octet(s) -- *)
+Theorem C02_ext_open_type_is_spec : forall c, open_type c = open_type_spec c.
+Proof. exact open_type_is_spec. Qed.
+Print Assumptions C02_ext_open_type_is_spec.
+
+(* every fragment but the last is m * 16K (1 <= m <= 4), a last fragment below 16K is always there, the sizes add up *)
+Theorem C02_ext_fragments_shape : forall fuel n, 0 <= n -> (Z.to_nat (n / 16384) < fuel)%nat ->
+  exists init last, fragments fuel n = init ++ [last] /\ 0 <= last < 16384 /\
+    Forall (fun k => exists m, 1 <= m <= 4 /\ k = m * 16384) init /\
+    fold_right Z.add 0 (fragments fuel n) = n.
+Proof. exact fragments_shape. Qed.
+Print Assumptions C02_ext_fragments_shape.
+
+(* ... of length 0 after an exact multiple of 16K (11.9.3.8.3) *)
+Theorem C02_ext_fragments_exact_multiple : forall fuel n m, 1 <= m -> n = m * 16384 ->
+  (Z.to_nat (n / 16384) < fuel)%nat -> exists init, fragments fuel n = init ++ [0].
+Proof. exact fragments_exact_multiple. Qed.
+Print Assumptions C02_ext_fragments_exact_multiple.
+
+(* the payloads of the fragments, concatenated, are the contents *)
+Theorem C02_ext_open_type_payloads : forall c,
+  concat (frag_payloads (fragments (S (length c)) (zlen c)) c) = c.
+Proof. exact open_type_payloads. Qed.
+Print Assumptions C02_ext_open_type_payloads.
+
+(* the open type is a whole number of octets and its contents has at least one *)
+Theorem C02_ext_open_type_octet_aligned : forall c, (length (open_type c) mod 8 = 0)%nat.
+Proof. exact open_type_octet_aligned. Qed.
+Print Assumptions C02_ext_open_type_octet_aligned.
+
+Theorem C02_ext_open_type_content_nonempty : forall std t v c, uper_encode std t v = Some c -> 1 <= zlen c.
+Proof. exact uper_encode_nonempty. Qed.
+Print Assumptions C02_ext_open_type_content_nonempty.
+
+(* -- X.691 11.9.3.4 / 11.6: the C's writers agree with the standard up to 64 / 63 and are refuted above -- *)
+Theorem C02_ext_nslength_partial : forall n, n <= 64 -> nslength false n = nslength true n.
+Proof. exact nslength_small_agree. Qed.
+Print Assumptions C02_ext_nslength_partial.
+
+Theorem C02_ext_nslength_refuted : exists t v, ext_uper false t v <> ext_uper true t v.
+Proof. exact ext_uper_nslength_not_standard_refuted. Qed.
+Print Assumptions C02_ext_nslength_refuted.
+
+Theorem C02_ext_nsnnwn_partial : forall n, n <= 63 -> nsnnwn false n = nsnnwn true n.
+Proof. exact nsnnwn_small_agree. Qed.
+Print Assumptions C02_ext_nsnnwn_partial.
+
+Theorem C02_ext_nsnnwn_refuted : exists n b, nsnnwn false n = Some b /\ get_nsnnwn b <> Some (n, []).
+Proof. exact nsnnwn_c_refuted. Qed.
+Print Assumptions C02_ext_nsnnwn_refuted.
+
+(* -- version brackets: asn1c's flattened reading is not the standard's grouped one -- *)
+Theorem C02_ext_version_brackets_refuted :
+  ext_uper true wit_flat wit_flat_val <> ext_uper true wit_grouped wit_grouped_val /\
+  ext_oer wit_flat wit_flat_val <> ext_oer wit_grouped wit_grouped_val.
+Proof. exact ext_version_brackets_refuted. Qed.
+Print Assumptions C02_ext_version_brackets_refuted.
